@@ -5,7 +5,7 @@
 From Hive.Base Require Import Prelude.
 From Hive.Model Require Import Types KernelBase SimOps States Step Harness.
 From Hive.Gen Require Import Kernels.
-From Hive.Proofs Require Import VehFrame Macro Guards Count CountInv DispInv PlaceInv LedgerInv AcctInv Walk RouteInv.
+From Hive.Proofs Require Import VehFrame Macro Guards Count CountInv DispInv PlaceInv LedgerInv AcctInv Walk RouteInv DropInv.
 Local Open Scope Z_scope.
 
 Definition all_entries {A} (f : positive -> A -> bool) (m : pmap A) : bool := forallb (fun kv => f (fst kv) (snd kv)) (PM.elements m).
@@ -150,6 +150,34 @@ Proof.
   - intros k v F. apply on_route_b_sound. exact (all_entries_sound _ _ HV k v F).
 Qed.
 
+(* ---- C03 drop-offs ---- *)
+Definition trip_eqb (a b : option (id * bool)) : bool :=
+  match a, b with Some (x, p), Some (y, q) => Pos.eqb x y && Bool.eqb p q | None, None => true | _, _ => false end.
+Lemma trip_eqb_eq a b : trip_eqb a b = true -> a = b.
+Proof. destruct a as [[x p]|], b as [[y q]|]; cbn; try discriminate; auto. rewrite andb_true_iff, Pos.eqb_eq. intros [-> E]. apply Bool.eqb_prop in E. subst. reflexivity. Qed.
+Fixpoint wfd_b (l : list Event) : bool :=
+  match l with
+  | [] => true
+  | e :: t => wfd_b t && match e with EvDropoff rid v _ _ => trip_eqb (trip t v) (Some (rid, false)) | _ => true end
+  end.
+Lemma wfd_b_sound l : wfd_b l = true -> wfd l.
+Proof.
+  induction l as [|e t IH]; cbn; [auto|]. intro H. apply andb_true_iff in H. destruct H as [H1 H2]. split; [auto|].
+  destruct e; auto. apply trip_eqb_eq. exact H2.
+Qed.
+Definition inv_drop_b (s : Sim) : bool :=
+  wfd_b (log s) && all_entries (fun vid v => match v_state v with
+     | ServicingTrip q _ [] => match trip (log s) vid with Some (r, _) => Pos.eqb r (r_id q) | None => false end
+     | ServicingTrip q _ _ => trip_eqb (trip (log s) vid) (Some (r_id q, false))
+     | _ => true end) (vehicles s).
+Lemma inv_drop_b_sound s : inv_drop_b s = true -> Inv_drop s.
+Proof.
+  unfold inv_drop_b. intro H. apply andb_true_iff in H. destruct H as [W C]. split; [apply wfd_b_sound; exact W|].
+  intros vid v q d r F S. pose proof (all_entries_sound _ _ C vid v F) as E. cbn beta in E. rewrite S in E. destruct r.
+  - destruct (trip (log s) vid) as [[r b]|]; [|discriminate]. apply Pos.eqb_eq in E. subst. eauto.
+  - apply trip_eqb_eq. exact E.
+Qed.
+
 (* ---- op_ok ---- *)
 Fixpoint nodup_b (l : list positive) : bool :=
   match l with [] => true | x :: t => negb (existsb (Pos.eqb x) t) && nodup_b t end.
@@ -182,7 +210,7 @@ Proof. reflexivity. Qed.
 (* ---- what the harness evaluates per case ---- *)
 Definition step_ops (ops : list (XOp * tok)) : option (list Op) :=
   fold_right (fun x acc => match fst x, acc with XStep o, Some l => Some (o :: l) | _, _ => None end) (Some []) ops.
-Definition all_inv_b (s : Sim) : bool := vkeys_b s && inv_counts_b s && inv_disp_b s && inv_place_b s && inv_route_b s.
+Definition all_inv_b (s : Sim) : bool := vkeys_b s && inv_counts_b s && inv_disp_b s && inv_place_b s && inv_route_b s && inv_drop_b s.
 (* ---- C03 ledger (evaluated as a consistency check of the conclusion; the premise is "nothing filed yet") ---- *)
 Definition rstatus_eqb (a b : rstatus) : bool :=
   match a, b with Unknown, Unknown | Waiting, Waiting | PickedUp, PickedUp | Cancelled, Cancelled => true | _, _ => false end.
@@ -232,15 +260,15 @@ Definition premises_case (env : Env) (s : Sim) (ops : list (XOp * tok)) (_ : Z) 
 (* premises decided true => every history theorem applies (this is what code 2 / 3 certify about the case) *)
 Theorem premises_apply env s os : (forall g, e_fence env g = true) -> (forall a b, walk (p_geoid a) (e_route env a b) = Some (p_geoid b)) ->
   all_inv_b s && nil_log_b s && forallb op_ok_b os = true ->
-  let s' := fold_left (step_op env) os s in vkeys s' /\ Inv_counts s' /\ Inv_disp s' /\ Inv_place s' /\ Inv_route s' /\ Inv_ledger (init_of s) s' /\
+  let s' := fold_left (step_op env) os s in vkeys s' /\ Inv_counts s' /\ Inv_disp s' /\ Inv_place s' /\ Inv_route s' /\ Inv_drop s' /\ Inv_ledger (init_of s) s' /\
   (forall k v0, find k (vehicles s) = Some v0 -> exists v, find k (vehicles s') = Some v /\ vacct (log s') k v0 v) /\
   (forall k x0, find k (stations s) = Some x0 -> exists x, find k (stations s') = Some x /\ sacct (log s') k x0 x).
 Proof.
-  intros Hf Hr H. unfold all_inv_b in H. rewrite !andb_true_iff in H. destruct H as [[[[[[K C] D] P] Rt] NL] O].
-  apply vkeys_b_sound in K. apply inv_counts_b_sound in C. apply inv_disp_b_sound in D. apply inv_place_b_sound in P. apply inv_route_b_sound in Rt. apply ops_ok_b_sound in O.
+  intros Hf Hr H. unfold all_inv_b in H. rewrite !andb_true_iff in H. destruct H as [[[[[[[K C] D] P] Rt] Dr] NL] O].
+  apply vkeys_b_sound in K. apply inv_counts_b_sound in C. apply inv_disp_b_sound in D. apply inv_place_b_sound in P. apply inv_route_b_sound in Rt. apply inv_drop_b_sound in Dr. apply ops_ok_b_sound in O.
   assert (L : log s = []) by (unfold nil_log_b in NL; destruct (log s); [reflexivity|discriminate]).
   cbv zeta. split; [apply (counts_invariant env os s K C O)|]. split; [apply (counts_invariant env os s K C O)|].
-  split; [apply (disp_invariant env Hf os s K D O)|]. split; [apply (place_invariant env os s K P O)|]. split; [apply (route_invariant env Hr os s K Rt O)|].
+  split; [apply (disp_invariant env Hf os s K D O)|]. split; [apply (place_invariant env os s K P O)|]. split; [apply (route_invariant env Hr os s K Rt O)|]. split; [apply (drop_invariant env os s K Dr O)|].
   split; [apply (ledger_invariant env (init_of s) os s K (Inv_ledger_initial s L) O)|].
   apply (books_over_histories env os s K (proj1 C) O L).
 Qed.
